@@ -321,10 +321,108 @@ let c17_monitors (capmb : n) node ops (obs : obs list) impl : string list =
     if m_le = impl && agree_be then List.map (fun f -> "newstorage-radius-read-little-endian " ^ f) !le_fail else !le_fail in
   List.rev !fails @ le_fails
 
+(* ---------------- the history hybrid store (y04): routing by the content key in front of the modelled store *)
+type ho = HP of int list * int list * v | HG of int list * int list | HR
+let parse_hops s =
+  if s = "." then [] else
+  List.map (fun o -> match split ',' o with
+    | ["p"; key; id; vl] -> HP (Util.bytes_of_hex key, Util.bytes_of_hex id, parse_val vl)
+    | ["g"; key; id] -> HG (Util.bytes_of_hex key, Util.bytes_of_hex id)
+    | ["r"] -> HR
+    | _ -> failwith "hop") (split ';' s)
+let eph key = is_ephemeral (b key)
+let hpool ops =
+  List.rev (List.fold_left (fun acc o -> match o with
+    | HP (key, id, _) | HG (key, id) -> if eph key || List.mem (key, id) acc then acc else (key, id) :: acc
+    | HR -> acc) [] ops)
+
+(* model: operations under a non-ephemeral key act on the modelled store and ignore the key; the ephemeral store is
+   opaque - the result of an operation addressed to it is taken from the implementation and must not change anything *)
+let hybrid_model_run (capmb : n) node ops (impl_res : int -> string) =
+  let pairs = hpool ops in
+  let ids = List.map snd pairs in
+  let y = ref (init capmb k_contentDeletionPPM (b node)) in
+  let steps = ref [] and stop = ref None in
+  (try List.iteri (fun i o ->
+    let res, nxt = match o with
+      | HP (key, _, _) | HG (key, _) when eph key -> (impl_res i, Ok !y)
+      | HP (_, id, x) ->
+        let r = match put vlen le_dec !y.mem (b id) x with
+          | Ok ((_, Stored), _) -> "ok" | Ok ((_, Refused), _) -> "refused" | Ok ((_, PruneErr), _) -> "err"
+          | Err _ -> "err" | Panic -> "panic" in
+        (r, step vlen vhead8 le_dec !y (OPut (b id, x)))
+      | HG (_, id) -> (show_get !y id, step vlen vhead8 le_dec !y (OGet (b id)))
+      | HR -> ("-", step vlen vhead8 le_dec !y OReopen) in
+    (match nxt with
+     | Ok y' -> y := y'; steps := observe res y' ids :: !steps
+     | _ -> stop := Some i; raise Exit)) ops with Exit -> ());
+  (List.rev !steps, !stop)
+
+let hybrid_monitors (capmb : n) node ops (obs : obs list) : string list =
+  let pairs = hpool ops in
+  let cap = capmb *: k_bytesPerMB in
+  let fails = ref [] in
+  let fail k d = fails := (k ^ " " ^ d) :: !fails in
+  let putvals = Hashtbl.create 16 in       (* id -> values put so far under a non-ephemeral key *)
+  let prev = ref (obs0 (List.length pairs)) in
+  List.iteri (fun i (o, ob) ->
+    let prev_ = !prev in
+    let over id x = (prev_.cnt +: n_ (List.length id + vlen_i x)) >: cap in
+    (match o with HP (key, id, x) when not (eph key) -> Hashtbl.add putvals id (show_val x) | _ -> ());
+    let unchanged () = (prev_.rads, sd prev_.cnt, prev_.recs, sd prev_.held, prev_.gets) = (ob.rads, sd ob.cnt, ob.recs, sd ob.held, ob.gets) in
+    (* a get under a non-ephemeral key is served by the eternal store: found or not found, never an error *)
+    List.iteri (fun j (_, id) ->
+      if valid_id node id && List.nth ob.gets j = "err"
+      then fail "hybrid-get-errors-for-non-ephemeral-key" (Printf.sprintf "step=%d pair#%d id=%s" i j (Util.hex_of_bytes id))) pairs;
+    (match o with
+     | HP (key, _, _) | HG (key, _) when eph key ->
+       if not (unchanged ()) then fail "hybrid-ephemeral-operation-changed-eternal-store" (Printf.sprintf "step=%d" i)
+     | HP (_, _, _) when ob.res = "refused" ->
+       if not (unchanged ()) then fail "hybrid-refused-put-changed-state" (Printf.sprintf "step=%d" i)
+     | HG (_, _) -> if not (unchanged ()) then fail "hybrid-get-changed-state" (Printf.sprintf "step=%d" i)
+     | _ -> ());
+    List.iteri (fun j (_, id) ->
+      if valid_id node id then begin
+        let g = List.nth ob.gets j and g0 = List.nth prev_.gets j in
+        if g <> "nf" && not (List.mem g (Hashtbl.find_all putvals id))
+        then fail "hybrid-get-returns-foreign-bytes" (Printf.sprintf "step=%d pair#%d got=%s" i j g);
+        (match o with
+         | HP (key, id', x) when not (eph key) && ob.res = "ok" && id' = id ->
+           if g <> show_val x && not (g = "nf" && over id' x)
+           then fail "hybrid-get-misses-accepted-put" (Printf.sprintf "step=%d pair#%d got=%s want=%s" i j g (show_val x))
+         | HP (key, id', x) when not (eph key) && (ob.res = "ok" || ob.res = "err") ->
+           if g <> g0 && not (g = "nf" && over id' x) then fail "hybrid-get-changed-by-put-of-other-id" (Printf.sprintf "step=%d pair#%d %s->%s" i j g0 g)
+         | HR ->
+           if g <> g0 && not (g = "nf" && rec_n prev_ >: cap) then fail "hybrid-get-changed-by-reopen" (Printf.sprintf "step=%d pair#%d %s->%s" i j g0 g)
+         | _ -> ())
+      end) pairs;
+    (* the result of a get under a non-ephemeral key is the item stored under that id *)
+    (match o with
+     | HG (key, id) when not (eph key) && valid_id node id ->
+       let rec find k = function [] -> -1 | (k', i') :: t -> if k' = key && i' = id then k else find (k + 1) t in
+       let j = find 0 pairs in
+       if j >= 0 && ob.res <> List.nth ob.gets j then fail "hybrid-get-result-inconsistent" (Printf.sprintf "step=%d" i);
+       if ob.res <> "nf" && not (List.mem ob.res (Hashtbl.find_all putvals id)) then fail "hybrid-get-returns-foreign-bytes" (Printf.sprintf "step=%d got=%s" i ob.res);
+       (* the same id through every other pair must read the same *)
+       List.iteri (fun j' (_, id') -> if id' = id && List.nth ob.gets j' <> ob.res then fail "hybrid-get-depends-on-content-key" (Printf.sprintf "step=%d pair#%d" i j')) pairs
+     | _ -> ());
+    prev := ob) (List.combine ops obs);
+  List.rev !fails
+
 (* ---------------- handler *)
 let handle fields impl : string option * string list =
   match fields with
-  | [kind; capmb; node; opss] when String.length kind = 3 && kind.[0] = 'h' ->
+  | ["y04"; capmb; node; opss] ->
+    let capmb = (match n_of_dec_opt capmb with Some c -> c | None -> zero) and node = Util.bytes_of_hex node and ops = parse_hops opss in
+    let pobs = parse_obs impl in
+    let impl_res i = match pobs with Some l when i < List.length l -> (List.nth l i).res | _ -> "?" in
+    let m = model_string (hybrid_model_run capmb node ops impl_res) impl in
+    let mons = match pobs with
+      | None -> ["hybrid-history-panics-fails-or-unparsable " ^ (if String.length impl > 120 then String.sub impl 0 120 else impl)]
+      | Some obs when List.length obs <> List.length ops -> ["hybrid-history-observation-count"]
+      | Some obs -> hybrid_monitors capmb node ops obs in
+    (Some m, mons)
+  | [kind; capmb; node; opss] when String.length kind = 3 && (kind.[0] = 'h' || kind = "z04") ->
     let capmb = (match n_of_dec_opt capmb with Some c -> c | None -> zero) and node = Util.bytes_of_hex node and ops = parse_ops opss in
     let m = model_string (model_run le_dec capmb node ops) impl in
     let mons = match parse_obs impl with
@@ -338,6 +436,7 @@ let handle fields impl : string option * string list =
       | Some obs ->
         (match kind with
          | "h04" -> c04_monitors capmb node ops obs
+         | "z04" -> List.map (fun f -> "state-wrapper-" ^ f) (c04_monitors capmb node ops obs)
          | "h05" -> c05_monitors capmb node ops obs
          | "h06" -> attribute_le capmb node ops impl (c06_raw node ops obs) "pebble-storage-distance-read-little-endian"
          | "h17" -> c17_monitors capmb node ops obs impl
